@@ -4,7 +4,8 @@
 (* The library's internal path is free; the drive simulator's reactions are judged by the drive      *)
 (* state machine, the outcome by the property.                                                      *)
 EXTENDS P402, Json, IOUtils
-ZInit(t) == [drv |-> "SWITCH ON DISABLED", prev |-> 0, target |-> "none", ncw |-> 0, start |-> "none"]
+ZInit(t) == [drv |-> "SWITCH ON DISABLED", prev |-> 0, target |-> "none", ncw |-> 0, start |-> "none",
+             pend |-> "none"]      \* pend: commanded transition of a slow drive that has not taken effect yet
 ZShow(st) == st
 Bad(st, why) == [ok |-> FALSE, why |-> why, st |-> st]
 Good(st) == [ok |-> TRUE, why |-> "", st |-> st]
@@ -16,9 +17,20 @@ ZStep(st, e, t) ==
                        ELSE Bad(st, "HARNESS: drive simulator reported a statusword that does not match its state")
       [] e.e = "auto" -> IF HasAuto(st.drv) THEN Good([st EXCEPT !.drv = AutoNext(st.drv)])
                          ELSE Bad(st, "HARNESS: automatic transition from a state that has none")
+      [] e.e = "ext" -> Good([st EXCEPT !.drv = e.to, !.pend = "none"])     \* the drive changed state by itself
+      [] e.e = "lagged" ->
+           IF st.pend = "none" \/ e.to # st.pend THEN Bad(st, "HARNESS: slow drive completed a transition that was not pending")
+           ELSE Good([st EXCEPT !.drv = st.pend, !.pend = "none"])
       [] e.e = "cw" ->
            LET d2 == DriveStep(st.drv, e.val, st.prev) IN
-           IF d2 # e.after THEN Bad(st, "HARNESS: drive simulator reaction differs from the CiA 402 state machine")
+           IF e.lag
+             THEN \* slow drive: the reaction becomes visible some statusword reads later ("lagged")
+                  IF e.after # st.drv THEN Bad(st, "HARNESS: slow drive changed state at once")
+                  ELSE IF d2 = "OPERATION ENABLED" /\ st.drv # "OPERATION ENABLED" /\ ~MayEnable(st.target)
+                    THEN Bad(st, "operation was enabled although the target is neither OPERATION ENABLED nor QUICK STOP ACTIVE")
+                  ELSE Good([st EXCEPT !.prev = e.val, !.ncw = st.ncw + 1,
+                                       !.pend = IF d2 # st.drv THEN d2 ELSE "none"])
+           ELSE IF d2 # e.after THEN Bad(st, "HARNESS: drive simulator reaction differs from the CiA 402 state machine")
            ELSE IF d2 = "OPERATION ENABLED" /\ st.drv # "OPERATION ENABLED" /\ ~MayEnable(st.target)
              THEN Bad(st, "operation was enabled although the target is neither OPERATION ENABLED nor QUICK STOP ACTIVE")
            ELSE Good([st EXCEPT !.drv = d2, !.prev = e.val, !.ncw = st.ncw + 1])
